@@ -171,13 +171,24 @@ Definition clean_rest (rest : list Z) : tail :=
   else if list_eq_dec Z.eq_dec rest eos then End
   else if list_eq_dec Z.eq_dec rest [0; 0; 0; 0] then End
   else Err.
+(* A message without body is completed by the decoder only when the NEXT byte arrives (the loop
+   `while !buffer.is_empty()` is left before the Body state is processed): if the input ends right
+   after the metadata of a body-less message, that message is still pending - it is not delivered and
+   `finish` reports an error. *)
 Definition push_read (bs : list Z) : nat * tail :=
   let rest := decode_rest (S (length bs)) bs in
-  match decode_all fb_body_len bs with
-  | ([], _) => (O, clean_rest rest)
-  | (m :: r, _) =>
+  let '(ms, _) := decode_all fb_body_len bs in
+  let pending := match rest, rev ms with
+                 | [], m :: _ => match snd m with [] => true | _ :: _ => false end
+                 | _, _ => false
+                 end in
+  let ms' := if pending then removelast ms else ms in
+  let fin := if pending then Err else clean_rest rest in
+  match ms' with
+  | [] => (O, fin)
+  | m :: r =>
       if fb_header_type (fst m) =? 1
-      then let '(n, t) := count_batches r End in (n, match t with Err => Err | End => clean_rest rest end)
+      then let '(n, t) := count_batches r End in (n, match t with Err => Err | End => fin end)
       else (O, Err)
   end.
 
